@@ -30,12 +30,20 @@ struct XSock {
     // delivery model
     std::deque<std::string> out_fifo;   // messages accepted from the app (send returned success), not yet received by peer
     std::string out_stream;             // byte-stream: accepted bytes not yet received by the peer
+    // a send that has been invoked but has not returned yet (delivery may overtake the return)
+    bool send_inflight = false;
+    std::string inflight;          // the offered message / bytes
+    size_t inflight_taken = 0;     // how much of it the peer has already received
+    std::string refused_offer;     // byte-stream: the bytes of the last refused (EAGAIN) offer
+    std::string ghost;             // byte-stream: bytes of a refused send that reached the peer anyway (known btls defect); skipped when re-offered
+    bool closed_after_flush = false;   // closed gracefully: every accepted message had been flushed (finish==0 / blocking)
     uint64_t sent_ok = 0, recv_ok = 0;
     uint64_t stream_sent = 0, stream_recv = 0;
     // C17 ledger
     int64_t led_from_app_msgs = 0, led_from_app_bytes = 0, led_to_app_msgs = 0, led_to_app_bytes = 0;
     int64_t last_cnt[8] = {0, 0, 0, 0, 0, 0, 0, 0};
     bool cnt_valid = false;
+    uint64_t cnt_calls = 0;        // counter-check opportunities seen (checks are thinned out after the first 150)
     // terminal-state automaton (C06)
     bool saw_eof = false;          // a receive returned 0
     int term_errno = 0;            // first terminal errno reported by any call
